@@ -1,7 +1,7 @@
 """Contracts for file_builder/file_builder.py (class FileBuilder)."""
 import z3
 from pyvc.engine import Contract, ExcSpec, LoopSpec
-from pyvc.sorts import (STR, BOOL, INT, PYV, OBJ, SET, MAP, LIST, OPT, StrS, ObjS, PyV, PyVs, KVs,
+from pyvc.sorts import (is_alloc, STR, BOOL, INT, PYV, OBJ, SET, MAP, LIST, OPT, StrS, ObjS, PyV, PyVs, KVs,
                         cls_isinstance, cls_of, CLS, abspath, dirname, K_FILE, K_DIR, K_ABSENT, EXC,
                         exc_issub)
 from pyvc.values import CallbackV, Sym
@@ -33,7 +33,9 @@ def wf_builder(c):
     op = op_of(c)
     return [('operation-kind', Implies(OPT_OP.is_some(op),
                                        Or(cls_of(OPT_OP.val(op)) == CLS['BuildFileOperation'],
-                                          cls_of(OPT_OP.val(op)) == CLS['SubbuildOperation'])))]
+                                          cls_of(OPT_OP.val(op)) == CLS['SubbuildOperation']))),
+            ('operation-exists', Implies(OPT_OP.is_some(op),
+                                         is_alloc(c.gold('alloc'), OPT_OP.val(op))))]
 
 
 def no_effect(c):
@@ -71,6 +73,9 @@ CONTRACTS.append(Contract(
             OPT_OP.is_some(op_of(c)),
             c.new(SUBOPS, OPT_OP.val(op_of(c)))
             == z3.Concat(c.old(SUBOPS, OPT_OP.val(op_of(c))), z3.Unit(c.suboperation)))),
+        ('root-builder-records-nothing', Implies(
+            Not(OPT_OP.is_some(op_of(c))),
+            c.new(SUBOPS, OPT_OP.val(op_of(c))) == c.old(SUBOPS, OPT_OP.val(op_of(c))))),
     ],
     raises=[ExcSpec('RuntimeError', when=lambda c: finished(c), modifies=NOTHING)],
     modifies=lambda c: [(SUBOPS, OPT_OP.val(op_of(c)))],
@@ -104,7 +109,7 @@ def fence(name, params, vararg=None, kwarg=None):
     con = Contract(M + name, props=['C17'], params=ps, variant='finished',
                    requires=lambda c: wf_builder(c) + [('finished', finished(c))] + [
                        ('wf-' + k, J.wf(c.a(k))) for k, t in params.items()
-                       if t is PYV],
+                       if t is PYV or (isinstance(t, Sym) and t.ty.kind == 'pyv')],
                    may_return=False, raises=FENCE_EXC, modifies=NOTHING)
     VARIANTS.append(con)
 
@@ -296,3 +301,328 @@ CONTRACTS.append(guard_set(Contract(
     modifies=lambda c: list(SH.keys()) + ['g:eff', 'g:fs_kind', 'g:fs_epoch', 'g:ncalls'],
     lemmas=['lookup_sanitized', 'sanitized_eqdom', 'rt_sanitized'],
 ), mkdtemp=bv_mkdtemp_guard))
+
+
+def builder_mods(c):
+    return BUILD_MODS + BUILD_GHOSTS
+
+
+# ===================================================================================================
+# C11: values cross the API by value.  Region obligations: `ret_fresh` on every value-returning API
+# edge; arguments handed to user callbacks must be fresh (checked at the callback call site).
+EXEC = 'file_builder.simple_operation_executor.SimpleOperationExecutor.'
+EXEC_MODS = ['BuildDirs._removed_dirs', 'BuildDirs._exists_dirs', 'BuildDirs._maybe_removed_dirs',
+             'BuildDirs._removed_files', 'SimpleOperationExecutor._hash_cache']
+
+# the executor's dispatch: frame + result type only here; the per-operation semantics are the
+# contracts in contracts/executor.py (C04/C05/C13)
+CONTRACTS.append(Contract(
+    EXEC + 'exec', props=['C04'], trusted=True,
+    params={'self': OBJ('SimpleOperationExecutor'), 'name': STR, 'args': PYV,
+            'created_files': OPT(OBJ('CreatedFiles'))},
+    returns=PYV,
+    ensures=lambda c: no_effect(c) + [('result-is-json-like', J.wf(c.res))],
+    raises=[ExcSpec('OSError', ensures=no_effect), ExcSpec('ValueError', ensures=no_effect)],
+    modifies=lambda c: EXEC_MODS,
+    notes='dispatch by name to the executor methods; queries never change the file system'))
+
+
+
+
+CONTRACTS.append(Contract(
+    M + '_exec_simple_operation', props=['C11', 'C04', 'C17'],
+    params={'self': FB, 'operation': OBJ('SimpleOperation')}, returns=PYV, ret_fresh=True,
+    requires=lambda c: wf_builder(c) + [
+        ('fresh-record', Not(c.old('Operation.is_finished', c.operation)))],
+    ensures=lambda c: no_effect(c) + append_only(c, except_obj=c.operation),
+    raises=[ExcSpec('RuntimeError', when=lambda c: finished(c), ensures=no_effect,
+                    modifies=NOTHING),
+            ExcSpec('OSError', when=lambda c: Not(finished(c)), exact=False,
+                    ensures=lambda c: no_effect(c) + append_only(c, except_obj=c.operation)),
+            ExcSpec('ValueError', when=lambda c: Not(finished(c)), exact=False,
+                    ensures=lambda c: no_effect(c)
+                    + append_only(c, except_obj=c.operation))],
+    modifies=lambda c: EXEC_MODS + ['Operation.return_value', 'Operation.is_finished',
+                                    'SimpleOperation.exception_type_str', SUBOPS],
+))
+CONTRACTS[-1].fresh_props = ['C11']
+
+# _build_file / _subbuild as seen by their callers (bodies verified separately)
+BUILD_FILE_WEAK = Contract(
+    M + '_build_file', props=['C10'], trusted=True,
+    params={'self': FB, 'func': callback()}, returns=PYV,
+    ensures=lambda c: append_only(c, True),
+    raises=[ExcSpec('Exception', ensures=lambda c: append_only(c, True))],
+    modifies=builder_mods)
+CONTRACTS.append(BUILD_FILE_WEAK)
+
+
+def cb_args_fresh_hook(eng, st, f, pos, kws, starv, dstarv, node):
+    """C11.A2: every JSON argument handed to the user function is a private copy"""
+    intr = eng.intr
+    vals = []
+    for v in ([starv] if starv is not None else []) + ([dstarv] if dstarv is not None else []) \
+            + list(pos):
+        if hasattr(v, 'tail'):        # ArgsV: [self, filename] + <copy of args>
+            vals.append(v.tail)
+        elif isinstance(v, Sym) and v.ty.kind == 'pyv':
+            vals.append(v)
+    for i, v in enumerate(vals):
+        eng.oblige(st, intr.fresh_goal(eng, st, v), 'region',
+                   'callback-argument-%d-fresh@L%d' % (i, node.lineno), props=['C11', 'C07'],
+                   line=node.lineno)
+
+
+qo_ = z3.Const('fb!o', ObjS)
+
+
+def append_only_states(eng, pre, post):
+    """two-state invariant of a running build: records only grow (appends), closed stays closed"""
+    rd = eng.hread
+    al = eng.gread(pre, 'alloc')
+    return [ForAll([qo_], Implies(is_alloc(al, qo_), z3.PrefixOf(rd(pre, SUBOPS, qo_),
+                                                       rd(post, SUBOPS, qo_)))),
+            ForAll([qo_], Implies(And(is_alloc(al, qo_), rd(pre, 'Operation.is_finished', qo_)),
+                                  rd(post, 'Operation.is_finished', qo_)))]
+
+
+STABLE_FIELDS = ['FileBuilder._is_finished_build',
+                 'ComplexOperation.raised', 'ComplexOperation.setup_failed',
+                 'Operation.return_value', 'Operation.is_finished',
+                 'BuildFileOperation.file_comparison_result', 'SimpleOperation.exception_type_str']
+
+
+def stable_states(eng, pre, post, except_obj=None):
+    """records that existed before a nested call keep their result fields: a nested call writes
+    only the records it allocates itself (and appends to suboperations lists)"""
+    al = eng.gread(pre, 'alloc')
+    out = []
+    for f in STABLE_FIELDS:
+        cond = is_alloc(al, qo_)
+        if except_obj is not None:
+            cond = And(cond, qo_ != except_obj)
+        out.append(ForAll([qo_], Implies(cond, eng.hread(post, f, qo_) == eng.hread(pre, f, qo_))))
+    return out
+
+
+def append_only(c, except_own=False, except_obj=None):
+    fs = append_only_states(c.eng, c._old, c._new)
+    out = [('records-append-only', fs[0]), ('closed-stays-closed', fs[1])]
+    ex = cur_op(c) if except_own else except_obj
+    for f, g in zip(STABLE_FIELDS, stable_states(c.eng, c._old, c._new, ex)):
+        out.append(('existing-records-keep-' + f.split('.')[1], g))
+    return out
+
+
+def cb_havoc_builder(eng, st, f, pos, kws, starv, dstarv):
+    """what user code can change through the builder it was given: the shared build state,
+    subject to the two-state invariants (rely) that every public method guarantees"""
+    pre = st.fork()
+    for fld in BUILD_MODS:
+        eng.hhavoc(st, fld, 'Hcb')
+    for f_ in append_only_states(eng, pre, st) + stable_states(eng, pre, st):
+        st.assume(f_)
+
+
+SUBBUILD_INNER = Contract(
+    M + '_subbuild', props=['C11', 'C07', 'C08', 'C17'],
+    params={'self': FB, 'func': callback()}, returns=PYV,
+    requires=lambda c: wf_builder(c) + [
+        ('is-subbuild', And(OPT_OP.is_some(op_of(c)),
+                            cls_of(OPT_OP.val(op_of(c))) == CLS['SubbuildOperation'])),
+        ('args-sanitized', J.sanitized(c.old('Operation.args', OPT_OP.val(op_of(c))))),
+        ('kwargs-sanitized', J.sanitized(c.old('ComplexOperation.kwargs', OPT_OP.val(op_of(c))))),
+        ('func-callable', c.args['func'].is_callable),
+        ('record-is-new', z3.Length(c.old(SUBOPS, OPT_OP.val(op_of(c)))) == 0)],
+    ensures=lambda c: [('closed', c.new('Operation.is_finished', OPT_OP.val(op_of(c))))]
+    + append_only(c, True),
+    raises=[ExcSpec('Exception', ensures=lambda c: append_only(c, True))],
+    modifies=builder_mods,
+)
+SUBBUILD_INNER.callback_havoc = cb_havoc_builder
+SUBBUILD_INNER.on_callback = cb_args_fresh_hook
+CONTRACTS.append(SUBBUILD_INNER)
+
+
+# ---------------------------------------------------------------------------------------------------
+# cache lookups and reuse, as seen by _subbuild/_build_file (strengthened and verified further below)
+OPT_SUB = OPT(OBJ('SubbuildOperation'))
+OPT_BF = OPT(OBJ('BuildFileOperation'))
+LOOKUP_MODS = EXEC_MODS     # replaying queries only refreshes the executor's memo tables
+
+
+def versions_equal(c, name, st='old'):
+    rd = getattr(c, st)
+    oc, nc = rd('FileBuilder._old_cache', c.self), rd('FileBuilder._new_cache', c.self)
+
+    def ver(cache):
+        fv = rd('Cache._func_versions', cache)
+        return If(J.kmem(PyV.PStr(name), PyV.kvs(fv)), J.klookup(PyV.PStr(name), PyV.kvs(fv)),
+                  PyV.PNone)
+    return J.jeq(ver(oc), ver(nc))
+
+
+def cur_op(c):
+    return OPT_OP.val(op_of(c))
+
+
+SUBLOOKUP = Contract(
+    M + '_subbuild_cache_lookup', props=['C01', 'C06', 'C05'], trusted=True,
+    params={'self': FB, 'subbuild_key': PYV}, returns=OPT_SUB,
+    ensures=lambda c: no_effect(c) + [
+        ('hit-is-the-old-record', Implies(OPT_SUB.sort().is_some(c.res), And(
+            Not(c.old('ComplexOperation.raised', OPT_SUB.sort().val(c.res))),
+            c.old('Operation.is_finished', OPT_SUB.sort().val(c.res)))))],
+    modifies=lambda c: LOOKUP_MODS)
+CONTRACTS.append(SUBLOOKUP)
+
+APPLY = Contract(
+    M + '_apply_cached_suboperations', props=['C01', 'C14'], trusted=True,
+    params={'self': FB, 'operation': OBJ('ComplexOperation')},
+    ensures=lambda c: [('no-callback', c.gnew('ncalls') == c.gold('ncalls'))] + eff_grows(c),
+    raises=[ExcSpec('Exception', ensures=lambda c: [
+        ('no-callback', c.gnew('ncalls') == c.gold('ncalls'))] + eff_grows(c))],
+    modifies=lambda c: ['BuildDirs._build_dir_counts', 'BuildDirs._created_dirs_map',
+                        'BuildDirs._error_created_dirs', 'BuildDirs._removed_dirs',
+                        'BuildDirs._exists_dirs', 'BuildDirs._maybe_removed_dirs',
+                        'BuildDirs._removed_files', 'FileBackups._backups',
+                        'FileBackups._next_backup_index', 'SimpleOperationExecutor._hash_cache',
+                        'g:eff', 'g:fs_kind', 'g:fs_epoch'])
+CONTRACTS.append(APPLY)
+
+USE_CACHED = Contract(
+    'file_builder.cache.Cache.use_cached_operation', props=['C08', 'C01'], trusted=True,
+    params={'self': OBJ('Cache'), 'operation': OBJ('ComplexOperation')},
+    raises=[ExcSpec('RuntimeError', modifies=NOTHING)],
+    modifies=lambda c: [('Cache._files', c.self), ('Cache._norm_cased_files', c.self),
+                        ('Cache._subbuilds', c.self)],
+    notes='all-or-nothing registration of a reused subtree (recursion over the record tree: '
+          'bounded stand-in, see bounded/registry.json)')
+CONTRACTS.append(USE_CACHED)
+
+
+# ---------------------------------------------------------------------------------------------------
+# public entry points that run user functions
+def last_subop(c, st='new'):
+    rd = getattr(c, st)
+    parent = OPT_OP.val(op_of(c))
+    s = rd(SUBOPS, parent)
+    return s[z3.Length(s) - 1]
+
+
+def recorded_on_parent(c):
+    """C17.Z4 / C08.D3: the attempt is attached to the caller's record, closed"""
+    parent_some = OPT_OP.is_some(op_of(c))
+    s0 = c.old(SUBOPS, OPT_OP.val(op_of(c)))
+    s1 = c.new(SUBOPS, OPT_OP.val(op_of(c)))
+    return [('attempt-recorded-on-parent', Implies(
+        And(parent_some, Not(finished(c, 'new'))),
+        And(z3.Length(s1) > z3.Length(s0),
+            c.new('Operation.is_finished', last_subop(c)))), ['C17', 'C08'])]
+
+
+PUBLIC_RUN_REQ = lambda c: wf_builder(c) + [('wf-args', J.wf(c.args['args'].t)),
+                                            ('wf-kwargs', J.wf(c.args['kwargs'].t)),
+                                            ('kwargs-keys-are-str', J.is_dict(c.args['kwargs'].t))]
+
+SUBBUILD_PUB = Contract(
+    M + 'subbuild', props=['C11', 'C08', 'C17', 'C07'],
+    params={'self': FB, 'func_name': PYV, 'func': callback(), 'args': VARARGS, 'kwargs': KWARGS},
+    returns=PYV, ret_fresh=True,
+    requires=lambda c: PUBLIC_RUN_REQ(c) + [('wf-name', J.wf(c.func_name))],
+    ensures=lambda c: recorded_on_parent(c) + append_only(c),
+    raises=[ExcSpec('RuntimeError', when=lambda c: finished(c), ensures=no_effect,
+                    modifies=NOTHING, props=['C17'], guarded=True, forces=True),
+            ExcSpec('Exception', when=lambda c: Not(finished(c)), guarded=True,
+                    ensures=lambda c: append_only(c))],
+    modifies=builder_mods,
+    lemmas=['rt_sanitized'],
+)
+SUBBUILD_PUB.fresh_props = ['C11']
+CONTRACTS.append(SUBBUILD_PUB)
+
+BFWC = Contract(
+    M + 'build_file_with_comparison', props=['C11', 'C08', 'C17', 'C07', 'C10'],
+    params={'self': FB, 'filename': PYV, 'file_comparison': ANY, 'func_name': PYV,
+            'func': callback(), 'args': VARARGS, 'kwargs': KWARGS},
+    returns=PYV, ret_fresh=True,
+    requires=lambda c: PUBLIC_RUN_REQ(c) + [('wf-name', J.wf(c.func_name)),
+                                            ('wf-filename', J.wf(c.filename))],
+    ensures=lambda c: recorded_on_parent(c) + append_only(c),
+    raises=[ExcSpec('RuntimeError', when=lambda c: finished(c), ensures=no_effect,
+                    modifies=NOTHING, props=['C17'], guarded=True, forces=True),
+            ExcSpec('Exception', when=lambda c: Not(finished(c)), guarded=True,
+                    ensures=lambda c: append_only(c))],
+    modifies=builder_mods,
+    lemmas=['rt_sanitized'],
+)
+BFWC.fresh_props = ['C11']
+CONTRACTS.append(BFWC)
+
+
+# ---------------------------------------------------------------------------------------------------
+# _rebuild_file: runs the user function of build_file (C10.B1/B3, C11.A2, C13.M6, C17.Z2)
+def is_bf_builder(c):
+    return [('is-build-file', And(OPT_OP.is_some(op_of(c)),
+                                  cls_of(OPT_OP.val(op_of(c))) == CLS['BuildFileOperation'])),
+            ('args-sanitized', J.sanitized(c.old('Operation.args', OPT_OP.val(op_of(c))))),
+            ('kwargs-sanitized', J.sanitized(c.old('ComplexOperation.kwargs',
+                                                   OPT_OP.val(op_of(c))))),
+            ('func-callable', c.args['func'].is_callable)]
+
+
+NCF = 'Cache._norm_cased_files'
+
+
+def claimed(c, st='old'):
+    """the target is claimed (in progress) in the new cache"""
+    rd = getattr(c, st)
+    nc = rd('FileBuilder._new_cache', c.self)
+    fn = rd('BuildFileOperation.filename', cur_op(c))
+    e = rd(NCF, nc)[fn]
+    return And(CA.OO.is_some(e), CA.OI.is_none(CA.OO.val(e)))
+
+
+def recorded(c, st='new'):
+    rd = getattr(c, st)
+    nc = rd('FileBuilder._new_cache', c.self)
+    fn = rd('BuildFileOperation.filename', cur_op(c))
+    return rd(NCF, nc)[fn] == CA.OO.some(CA.OI.some(cur_op(c)))
+
+
+REBUILD = Contract(
+    M + '_rebuild_file', props=['C10', 'C11', 'C07', 'C17', 'C13', 'C03', 'C02'],
+    params={'self': FB, 'func': callback()},
+    requires=lambda c: wf_builder(c) + is_bf_builder(c) + [
+        ('target-claimed', claimed(c)),
+        ('not-yet-raised', Not(c.old('ComplexOperation.raised', cur_op(c))))],
+    ensures=lambda c: [
+        ('closed', c.new('Operation.is_finished', cur_op(c)), ['C17', 'C10']),
+        ('not-raised', Not(c.new('ComplexOperation.raised', cur_op(c))), ['C10']),
+        ('called-exactly-once', c.gnew('ncalls') >= c.gold('ncalls') + 1, ['C10']),
+    ] + append_only(c, True),
+    raises=[ExcSpec('Exception', ensures=lambda c: [
+        ('closed', c.new('Operation.is_finished', cur_op(c)), ['C17', 'C10']),
+        ('marked-raised', c.new('ComplexOperation.raised', cur_op(c)), ['C10']),
+    ] + append_only(c, True))],
+    modifies=builder_mods,
+)
+REBUILD.callback_havoc = cb_havoc_builder
+REBUILD.on_callback = cb_args_fresh_hook
+REBUILD.lock_guards = {'Operation.is_finished': '_lock'}
+CONTRACTS.append(REBUILD)
+
+
+# comparison results as seen by FileBuilder (semantics: contracts/executor.py, C13)
+CMP_RESULT = Contract(
+    EXEC + 'file_comparison_result', props=['C13'], trusted=True,
+    params={'self': OBJ('SimpleOperationExecutor'), 'filename': STR, 'file_comparison_name': STR},
+    returns=PYV,
+    ensures=lambda c: no_effect(c) + [('not-None', Not(J.is_none(c.res))),
+                                      ('json', J.sanitized(c.res)),
+                                      ('was-a-file', c.gold('fs_kind')[c.filename] == K_FILE)],
+    raises=[ExcSpec('FileNotFoundError', ensures=no_effect),
+            ExcSpec('IsADirectoryError', ensures=no_effect),
+            ExcSpec('OSError', ensures=no_effect), ExcSpec('ValueError', ensures=no_effect)],
+    modifies=lambda c: ['SimpleOperationExecutor._hash_cache'])
+CONTRACTS.insert(0, CMP_RESULT)
